@@ -147,3 +147,44 @@ func VerifC12_QuoteNeighbours() {
 	rest2 := rest[len(qs)+len(" & "):]
 	zzverif.Assert(verifLexTEXT(rest2) == len(qt), "TEXT token starting at the second literal does not end where the literal ends")
 }
+
+// VerifC12_ScannerParserAgree: for every ASCII template of ≤ 4 (quick) / 5
+// bytes that starts an expression "@(": when the scanner returns an
+// EXPRESSION token, the text it hands to the parser contains balanced
+// parentheses outside literals per the lexer's own token boundaries (so that
+// scanner and parser agree where the expression ends), i.e. tokenising the
+// expression text never yields an unmatched ')' .
+// cover: expression-scanned, has-literal
+func VerifC12_ScannerParserAgree() {
+	n := 4
+	if zzverif.Thorough() {
+		n = 5
+	}
+	tail := verifTemplate("tail", n, true)
+	tmpl := "@(" + tail
+	toks := verifScanAll(tmpl, nil, true)
+	if len(toks) == 0 || toks[0].typ != EXPRESSION {
+		return
+	}
+	zzverif.Cover("expression-scanned")
+	ltoks, err := verifTokenize(toks[0].text)
+	zzverif.Assert(err == nil, "tokenizer model failed on ASCII")
+	depth := 0
+	for _, t := range ltoks {
+		switch t.typ {
+		case 2: // LPAREN
+			depth++
+		case 3: // RPAREN
+			depth--
+			zzverif.Assert(depth >= 0, "the scanner ended the expression after a ')' that the lexer sees as closing nothing")
+		case 20: // TEXT
+			zzverif.Cover("has-literal")
+		}
+	}
+	// the expression ended at the first ')' at depth 0 by the scanner's count;
+	// the lexer must not see an unclosed '(' either, unless a quote mis-pairs
+	if zzverif.Known("C12-lexer-trailing-backslash", strings.Contains(toks[0].text, "\\\"")) {
+		return
+	}
+	zzverif.Assert(depth == 0, "the scanner ended the expression while the lexer still sees an open '('")
+}
